@@ -60,3 +60,15 @@ Theorem C04_nonces_stay_on_their_stream : forall c o h,
   forall i q, In (i, q) sent -> q_nonce q = "" \/ In (i, q_nonce q) rcvd.
 Proof. exact nonces_stay_on_their_stream. Qed.
 Print Assumptions C04_nonces_stay_on_their_stream.
+
+(** non-vacuity: a subscription, a missing lookup, an accepted response, a reconnect and another missing lookup - the
+    last CDS request on the live stream (1) lists the whole interest set; nonce "n7" was only ever sent on stream 0 *)
+Theorem C04_example :
+  let c := {| sc_nds_required := false; sc_f := {| f_ns := "default"; f_dom := "cluster.local" |} |} in
+  let o := mk_oracle [] [] [] in
+  let cl n := RGood {| cl_name := n; cl_type := Some 3; cl_lb := 0; cl_eds_service := None; cl_outlier := None; cl_load := None |} in
+  let h := [OSubscribe TCl "a"; OLookup TCl "b"; OResp "7" "n7" (PCds [cl "a"]); ORecvErr false; OLookup TCl "c"] in
+  let '(s, sent, rcvd) := runw c o init_state h [] [] in
+  (s_stream s, option_map q_names (last_on TCl (s_stream s) sent), map (fun sq => (fst sq, q_nonce (snd sq))) sent, rcvd) =
+  (1%N, Some ["c"; "b"; "a"], [(0%N, ""); (0%N, ""); (0%N, "n7"); (1%N, ""); (1%N, "")], [(0%N, "n7")]).
+Proof. exact wire_example_proof. Qed.
